@@ -161,7 +161,8 @@ def model_front(s):
 
 def run_front(sources, shards=12, want_tokens=True):
     """sources: list of latin-1 str (bytes).  Returns list of dict(go, go_tokens, model, model_tokens, raw)"""
-    cases = [{"op": "e2e", "src_hex": vh.hexs(s)} for s in sources]
+    # "file": the same source is also stored in a file and compiled with libvore.CompileFile (same accept/reject, same error class, same bytecode)
+    cases = [{"op": "e2e", "src_hex": vh.hexs(s), "file": True} for s in sources]
     if want_tokens:
         cases += [{"op": "lex", "src_hex": vh.hexs(s)} for s in sources]
     res = vh.run_cases(cases, shards=shards, timeout_ms=10000)
@@ -199,7 +200,7 @@ def compare_front(ctx, sources, labels=None, impl_prop=True, stats=None):
         if stats is not None:
             stats[g[0]] = stats.get(g[0], 0) + 1
         if impl_prop and g[0] in ("panic", "hang", "other"):
-            ctx.violation("Compile %s on a %s source" % ("panics" if g[0] == "panic" else ("does not return (time or memory)" if g[0] == "hang" else "returns neither a program nor an error"), lab or "generated"),
+            ctx.violation("%s %s on a %s source" % (d.get("raw", {}).get("stage", "Compile"), "panics" if g[0] == "panic" else ("does not return (time or memory)" if g[0] == "hang" else "returns neither a program nor an error"), lab or "generated"),
                           {"source": s, "outcome": g})
             continue
         if d.get("raw", {}).get("api_diff"):
